@@ -77,6 +77,9 @@ def impl_read(path):
     try:
         r = ReplayReader(path)
         info = r.get_replay_data()
+        if len(path) % 2:
+            # one reader object asked twice: the second answer is the one compared (reading is repeatable, the file has not changed)
+            info = r.get_replay_data()
     except Exception as e:
         return {'err': type(e).__name__, 'exact_value_error': type(e) is ValueError}
     return {'ok': {'game': info.game, 'engine': info.engine_data, 'extra': info.extra_data, 'stream': info.decrypted_data}}
